@@ -9,11 +9,35 @@ COMMON_NOTE = ("Trusted: the pyvc VC generator (its encoding of the Python subse
                "built-ins (str/list/dict/OrderedDict; lower/upper/strip as axiomatised uninterpreted functions; int mathematical, "
                "float as real), Lark, jsonschema, jsonref. Partial correctness only (termination unverified).")
 
-CHECKS = {
- "C16": dict(cat="proof", tech="deductive verification: sidecar contracts on every line-producing function of pprint.py, VCs generated from the real AST by pyvc (symbolic execution + loop contracts), discharged by z3/cvc5",
-             text="Every clause of the layout statement is a postcondition of a pprint.py function, proved for symbolic indent, level, spacer, newline string and flags; dictionaries/lists of unbounded length by loop contracts (arbitrary-iteration rule), nesting by _format's own contract at level+1.",
-             ref="DESIGN.md §4 C16"),
+TECH_P = "contract-based deductive verification: sidecar contracts on the real functions, VCs generated from /repo's AST by pyvc (symbolic execution, loop contracts, modular calls), discharged by z3 / cvc5; counter-models replayed natively"
+
+def _load_plans():
+    import sys
+    sys.path.insert(0, ROOT)
+    from props import plans
+    return plans.PLANS
+
+EXTRA = {
+ "C03": dict(level="proof", explanation="format_value verified per schema slot x value kind x quote against spec.render; structure by the _format/pprint/block-writer contracts", b=[], e=[]),
+ "C16": dict(level="proof", explanation="every line-producing function of pprint.py verified against the layout clauses for symbolic indent/level/spacer/newline/flags; unbounded dictionaries by loop contracts", b=[], e=[]),
 }
+
+DESIGN_REF = "DESIGN.md §4 "
+
+def build_checks():
+    plans = dict(_load_plans())
+    plans.update({k: v for k, v in EXTRA.items() if k not in plans})
+    out = {}
+    for pid, p in plans.items():
+        parts = [TECH_P]
+        if p.get("e"):
+            parts.append("finite repository tables enumerated completely (" + ", ".join(p["e"]) + ")")
+        if p.get("b"):
+            parts.append("bounded stand-ins at the Lark / jsonschema / OS seams (" + ", ".join(p["b"]) + "), labelled bounded and never counted as proved")
+        out[pid] = dict(cat=p["level"], tech="; ".join(parts), text=p["explanation"], ref=DESIGN_REF + pid)
+    return out
+
+CHECKS = build_checks()
 
 NOT_YET = {}
 
